@@ -136,7 +136,7 @@ func genValue(r *Rand, o *TextOpts) ValueT {
 }
 
 func genMetaText(r *Rand, o *TextOpts) string {
-	words := []string{"hello", "la la", "verse 1", "A-B", "x;y", "a  b", "100%", "ok.", "it's", "[1]", "C/E", "_x_", "#1", "q: r", "- dash", "yes", "null", "~", "1e3", "0x10", "\"quoted\"", "'single'", "a: b", "&anchor", "*alias", "!tag", "|", ">", "@at", "`tick`"}
+	words := []string{"hello", "la la", "verse 1", "A-B", "x;y", "a  b", "100%", "ok.", "it's", "[1]", "C/E", "_x_", "#1", "q: r", "- dash", "yes", "null", "~", "1e3", "0x10", "\"quoted\"", "'single'", "\"la", "la\"", "\"", "a\"b", "\\\"x", "a: b", "&anchor", "*alias", "!tag", "|", ">", "@at", "`tick`"}
 	if o.Unicode && r.Chance(1, 2) {
 		words = append(words, "café", "日本語", "♪♫", "naïve — dash", "\U0001F3B5", "a\u00a0b", "x\u2028y", "é")
 	}
